@@ -24,7 +24,7 @@ def fsp(vol, f, drive=0, form='full'):
     d = chr(f.dir)
     lab = vol.label or ''
     if form == 'full':
-        return ':%d%s.%s.%s' % (drive, lab, d, name)
+        return ':%s%s.%s.%s' % (drive, lab, d, name)
     if form == 'dir':
         return '%s.%s' % (d, name)
     return name
